@@ -147,6 +147,34 @@ theorem client_cache_string_write (lib : TextLib F) (hl : TextLib.Lawful lib) (h
   exact ⟨j, ⟨w, none⟩, t, v', j', v'', h1, by simp [updateValue, client_imports_alike dt cdt hc, h4], rfl, c1, c2, c3, c4, c5,
     c6, c7, c8, c9⟩
 
+/-! ## a command call of the client: the argument arrives on the node, the result arrives on the client -/
+
+/-- `execCommand(module, command, v)` for every valid canonical value `v` of the argument type the client rebuilt
+(`cdt`): the argument it sends is strict JSON of the kind the *node's* argument type prescribes, and the node's
+`import_value` (`Command.do`) makes of it the very value `v`; when the command answers with that value (result type =
+argument type), the node exports it and `execCommand` returns the very value `v` again — the export/import pair of the
+wire clause on the one client path that does not pass the cache. -/
+theorem client_command_roundtrip (hb : B64Law) (dt cdt : DType F) (hwf : dt.WF) (hc : clientOf dt = some cdt)
+    (v : PVal F) (hv : Valid cdt v) (hcan : Canon v) :
+    ∃ j, clientExecArg cdt v = .ok j ∧ KindOK dt j ∧ StrictJ j ∧ importValue dt j = .ok v ∧
+      echoCommand dt cdt j = .ok v := by
+  have hs : Sendable dt v :=
+    sendable_clientOf dt cdt v hc (valid_sendable_wft cdt v (wft_clientOf dt cdt (wft_of_wf dt hwf) hc) hv)
+  obtain ⟨j, w, e1, e2, e3, _, e4, _, e6⟩ := send_core dt v hwf hs hb
+  have hw : w = v := e6 hcan
+  subst hw
+  refine ⟨j, by simp [clientExecArg, export_clientOf dt cdt w hc, e1], e2, e3, e4, ?_⟩
+  simp [echoCommand, clientExecResult, e4, e1, client_imports_alike dt cdt hc]
+
+/-- … for a value that is not canonical (a `-0.0` leaf) the node's argument and the client's result are equal to it -/
+theorem client_command_roundtrip_eq (hb : B64Law) (dt cdt : DType F) (hwf : dt.WF) (hc : clientOf dt = some cdt)
+    (v : PVal F) (hv : Valid cdt v) :
+    ∃ j a, clientExecArg cdt v = .ok j ∧ KindOK dt j ∧ StrictJ j ∧ importValue dt j = .ok a ∧ pyEq a v = true := by
+  have hs : Sendable dt v :=
+    sendable_clientOf dt cdt v hc (valid_sendable_wft cdt v (wft_clientOf dt cdt (wft_of_wf dt hwf) hc) hv)
+  obtain ⟨j, w, e1, e2, e3, _, e4, e5, _⟩ := send_core dt v hwf hs hb
+  exact ⟨j, w, by simp [clientExecArg, export_clientOf dt cdt v hc, e1], e2, e3, e4, e5⟩
+
 /-! ## constants of the source -/
 
 /-- the words `BoolType.from_string` knows and the `json.dumps` settings of `encode_msg_frame` (none: `allow_nan`
@@ -235,6 +263,17 @@ example (hb : B64Law) : ∃ j item t v' j' v'', exportValue exTree exValue = .ok
   client_cache_string_write exLib exLib_lawful hb exTree exClient exTree_wf exTree_limits exClient_eq
     exValue exValue_valid
     (by simp [exValue, Canon, CanonFields, CanonList, FloatOps.same, FloatOps.addZero])
+
+example (hb : B64Law) : ∃ j, clientExecArg exClient exValue = .ok j ∧ KindOK exTree j ∧ StrictJ j ∧
+    importValue exTree j = .ok exValue ∧ echoCommand exTree exClient j = .ok exValue :=
+  client_command_roundtrip hb exTree exClient exTree_wf exClient_eq exValue
+    (of_decide_eq_true (by decide +kernel : validB exClient exValue = true))
+    (by simp [exValue, Canon, CanonFields, CanonList, FloatOps.same, FloatOps.addZero])
+
+example (hb : B64Law) : ∃ j a, clientExecArg exClient exValue = .ok j ∧ KindOK exTree j ∧ StrictJ j ∧
+    importValue exTree j = .ok a ∧ pyEq a exValue = true :=
+  client_command_roundtrip_eq hb exTree exClient exTree_wf exClient_eq exValue
+    (of_decide_eq_true (by decide +kernel : validB exClient exValue = true))
 
 /-- a library whose float format is not idempotent at `1` (it prints `1` as a text that reads back as `0`, which prints
 otherwise): the hypotheses of `text_form_changes_where_format_law_fails` are satisfiable -/
